@@ -20,7 +20,13 @@ def plan(tier, seed):
   # not be run to the end and triaged on the unchanged tree in the time available (DESIGN.md
   # section 10).
   fams = [seed] if tier == 'quick' else [seed, seed + 1, seed + 2, seed + 3]
-  return [{'hseed': f * 100003 + i, 'steps': 14} for f in fams for i in range(16)]
+  return [{'hseed': f * 100003 + i, 'steps': 14} for f in fams for i in range(16)] + \
+         [{'hseed': f * 100003 + 50000 + i, 'steps': 14, 'stream': 'B'} for f in fams for i in range(6)]
+
+# Stream B (see props/C02.py): bundles in which several actions touch the same rows / cells / columns, so that a
+# failure in a later action has earlier changes of the same cells to revert.
+WEIGHTS_B = dict(WEIGHTS, replace_data=1.5, upsert=2)
+FLAGS_B = {'bundle_multi': 0.5, 'patterns': 0.4, 'invalid_off': ('short_bulk',)}
 
 def run_shard(spec, acc):
   nt = histories.NoTraceMonitor()
@@ -29,6 +35,13 @@ def run_shard(spec, acc):
   # tree within the session's budget, so it is not offered as a tier).
   maxpos = 12
   fm = histories.FaultMonitor(nt, max_positions=maxpos, stride_rnd=random.Random(spec['hseed'] ^ 0x5eed))
-  h = histories.History(acc, spec['hseed'], [fm, nt], spec['steps'], weights=WEIGHTS,
-                        flags={'bundle_multi': 0.5}, proc_kw={'failpoints': True})
+  if spec.get('stream') == 'B':
+    h = histories.History(acc, spec['hseed'], [fm, nt], spec['steps'], weights=WEIGHTS_B, flags=FLAGS_B,
+                          proc_kw={'failpoints': True})
+    acc.count('stream_B_histories')
+  else:
+    h = histories.History(acc, spec['hseed'], [fm, nt], spec['steps'], weights=WEIGHTS,
+                          flags={'bundle_multi': 0.5}, proc_kw={'failpoints': True})
   h.run()
+  for k, v in getattr(h.gen, 'pattern_counts', {}).items():
+    acc.count('pattern.' + k, v)
